@@ -261,12 +261,13 @@ def get_reuse_info(
     copyright_prefix = (
         copyright_prefix if copyright_prefix is not None else "spdx"
     )
-    for item in copyrights:
-        if "\n" in item:
+    for item in (*copyrights, *contributors):
+        # Any of the characters that end a line (form feed, U+2028, ...).
+        if item.splitlines() not in ([], [item]):
             raise click.UsageError(
                 _(
                     "'{statement}' contains a line break: a copyright notice"
-                    " is a single line."
+                    " or contributor is a single line."
                 ).format(statement=item)
             )
     copyright_lines = {
